@@ -44,7 +44,7 @@ class Obj:
 
     @property
     def is_singleton_scope(self):
-        return self.scope in ('default', 'module', 'class')
+        return self.scope in ('default', 'module', 'class', 'memo')
 
     @property
     def is_clone(self):
@@ -205,6 +205,10 @@ class PTA:
             return 'module', f.qualname
         if f.kind == 'classbody':
             return 'class', f.qualname
+        if any(d.split('.')[-1] in ('lru_cache', 'cache') for d in getattr(f, 'decorators', ())):
+            # a memoised function hands the same object to every caller with equal arguments: what it allocates
+            # lives as long as the process
+            return 'memo', f.qualname
         return 'func', f.qualname
 
     def alloc(self, kind: str, node: ast.AST, cls: Optional[ClassInfo] = None, tag: str = '', extra=None) -> Obj:
